@@ -25,7 +25,13 @@ namespace dv {
 
 struct Rng {
   uint64_t s;
-  explicit Rng(uint64_t seed) : s(seed * 0x9E3779B97F4A7C15ull + 0x1234567ull) {}
+  // the seed is hashed so that neighbouring seeds give unrelated streams (not shifted copies of one stream)
+  explicit Rng(uint64_t seed) : s(0) {
+    uint64_t z = seed + 0x9E3779B97F4A7C15ull;
+    z = (z ^ (z >> 30)) * 0xBF58476D1CE4E5B9ull;
+    z = (z ^ (z >> 27)) * 0x94D049BB133111EBull;
+    s = (z ^ (z >> 31)) * 0xD6E8FEB86659FD93ull + 0x1234567ull;
+  }
   uint64_t next() {  // splitmix64
     uint64_t z = (s += 0x9E3779B97F4A7C15ull);
     z = (z ^ (z >> 30)) * 0xBF58476D1CE4E5B9ull;
